@@ -270,6 +270,8 @@ def run(chk):
     if gen:
         hdr += gen
         fn = "gen_clamp"
+    types = {"thr": "list (list Z * Z * Z * Z * Z * Z * bool * option (option Z))", "masks": "list (list bool * nat)",
+             "ntrain": "list (list Z * Z * Z * Z)"}
     for name, chkfn, lits, what in (
         ("thr", f"(chk_clamp {fn})", thr_lits, f"threshold returned by the real determine_log_likelihood_threshold = model {fn} + index"),
         ("masks", "chk_argmax", mask_lits, "np.argmax of the masks built by the two threshold methods = model argmax_mask"),
@@ -279,7 +281,7 @@ def run(chk):
         ok_all = True
         errs = ""
         for k in range(0, len(lits), 600):
-            txt = hdr + f"Definition cs := {cL(lits[k:k + 600])}.\nEval vm_compute in (mism {chkfn} cs).\n"
+            txt = hdr + f"Definition cs : {types[name]} := {cL(lits[k:k + 600])}.\nEval vm_compute in (mism {chkfn} cs).\n"
             ok, evals, err = chk.coq_run(f"{name}_{k}", txt, timeout=600)
             if not ok or len(evals) != 1:
                 ok_all, errs = False, err
